@@ -509,4 +509,40 @@ def shift64_correct_full : Prop :=
   ∀ (s : Bool) (op : ShOp) (x : W64) (n : Nat), Canon s x →
     toBV (scheme64Shift s op x n) = specShift s op (toBV x) n
 
+/-! ### the executable form of the shift specification -/
+
+theorem ediv_big (x q : Int) (hq : 0 < q) (h : -q ≤ x ∧ x < q) : x / q = if x < 0 then -1 else 0 := by
+  split
+  · have := (Int.ediv_emod_unique hq (a := x) (q := -1) (r := x + q)).2 ⟨by omega, by omega, by omega⟩
+    exact this.1
+  · exact Int.ediv_eq_zero_of_lt (by omega) h.2
+
+theorem pow_le_int {a b : Nat} (h : a ≤ b) : (2 : Int) ^ a ≤ (2 : Int) ^ b := by
+  have := Nat.pow_le_pow_right (by omega : 0 < 2) h
+  exact_mod_cast this
+
+/-- the driver evaluates the shift spec on a clamped count (`GV.Driver.C06.clamp`); this does not change its value:
+    a shift by any count ≥ w equals the shift by w (0, or the sign fill for `>>` on signed operands) -/
+theorem specShift_clamp {w : Nat} (s : Bool) (op : ShOp) (a : BitVec w) (n : Nat) :
+    specShift s op a n = specShift s op a (if n ≥ w then w else n) := by
+  by_cases h : n ≥ w
+  · simp only [h, if_true]
+    cases op
+    · simp only [specShift]
+      rw [BitVec.shiftLeft_eq_zero h, BitVec.shiftLeft_eq_zero (Nat.le_refl w)]
+    · cases s
+      · simp only [specShift, Bool.false_eq_true, if_false]
+        rw [BitVec.ushiftRight_eq_zero h, BitVec.ushiftRight_eq_zero (Nat.le_refl w)]
+      · simp only [specShift, if_true]
+        apply BitVec.eq_of_toInt_eq
+        rw [BitVec.toInt_sshiftRight, BitVec.toInt_sshiftRight, Int.shiftRight_eq_div_pow, Int.shiftRight_eq_div_pow]
+        have h1 := a.le_toInt; have h2 := a.toInt_lt
+        have p1 : (2 : Int) ^ (w - 1) ≤ (2 : Int) ^ w := pow_le_int (by omega)
+        have p2 : (2 : Int) ^ w ≤ (2 : Int) ^ n := pow_le_int h
+        have p0 : (0 : Int) < (2 : Int) ^ (w - 1) := by have := Nat.two_pow_pos (w - 1); exact_mod_cast this
+        rw [Int.natCast_pow, Int.natCast_pow]
+        simp only [Int.cast_ofNat_Int]
+        rw [ediv_big a.toInt ((2 : Int) ^ n) (by omega) (by constructor <;> omega), ediv_big a.toInt ((2 : Int) ^ w) (by omega) (by constructor <;> omega)]
+  · simp only [h, if_false]
+
 end GV.Props.C06
